@@ -88,3 +88,12 @@ func (c *Channel) VerifAge(d time.Duration) {
 func (c *Channel) VerifTimers() (rekey, handshake bool) {
 	return c.rekeyTimer.IsPending(), c.handshakeTimer.IsPending()
 }
+
+// VerifExpireNow runs the expiry step that Send performs first and reports
+// whether a current session remains (Send would not block).
+func (c *Channel) VerifExpireNow() bool {
+	c.mu.Lock()
+	defer c.mu.Unlock()
+	c.expireSessions(time.Now())
+	return c.sessions[1].Session != nil
+}
